@@ -376,7 +376,7 @@ pub fn run(ctx: &mut Ctx) {
     }
 
     // ---- random
-    let total = if miri { 160 } else { ctx.size(40_000, 5_000_000) };
+    let total = if miri { 160 } else { ctx.size(400_000, 6_000_000) };
     for n in ctx.cases("random", total) {
         let mut rng = ctx.begin("random", n);
         let cfg = GenCfg {
